@@ -641,9 +641,53 @@ fn op_by_code_base(code: u64, rng: &mut Rng, z: &Zoned, other: &TimeZone, all: &
     }
 }
 
+/// Tags an event with "nye": 1 when one of the instants it carries (every object with a BigInt "sec") lies
+/// within 45 days of a UTC new year. Only used to identify the inputs of known finding D8 (POSIX rules whose
+/// transitions leave their own UTC year go wrong around the new year, and only there).
+fn mark_nye(ev: &mut Value) {
+    fn scan(v: &Value, hit: &mut bool) {
+        match v {
+            Value::Object(m) => {
+                if let (Some(sec), Some(_)) = (m.get("sec"), m.get("ns")) {
+                    if let (Some(limbs), Some(sign)) = (sec.get("m").and_then(|x| x.as_array()), sec.get("s").and_then(|x| x.as_i64())) {
+                        let mut n: i128 = 0;
+                        for l in limbs.iter().rev() {
+                            n = n * 10_000 + l.as_i64().unwrap_or(0) as i128;
+                        }
+                        let n = (n * sign as i128) as i64;
+                        let days = n.div_euclid(86_400);
+                        // day of year via the civil-from-days algorithm (input tagging only)
+                        let z = days + 719_468;
+                        let era = z.div_euclid(146_097);
+                        let doe = z - era * 146_097;
+                        let yoe = (doe - doe / 1460 + doe / 36_524 - doe / 146_096) / 365;
+                        let doy_mar = doe - (365 * yoe + yoe / 4 - yoe / 100); // days since March 1
+                        // Jan 1 is day 306 of the March-based year
+                        let d = (doy_mar - 306).rem_euclid(365);
+                        if d <= 45 || d >= 320 {
+                            *hit = true;
+                        }
+                    }
+                }
+                for x in m.values() {
+                    scan(x, hit);
+                }
+            }
+            Value::Array(a) => a.iter().for_each(|x| scan(x, hit)),
+            _ => {}
+        }
+    }
+    let mut hit = false;
+    scan(ev, &mut hit);
+    if let Value::Object(m) = ev {
+        m.insert("nye".into(), json!(if hit { 1 } else { 0 }));
+    }
+}
+
 pub fn run_zoned(a: &Args, which: &str) {
     let stem = which.to_string();
     let mut out = Out::new(&a.out, &stem, 40_000);
+    out.post = Some(mark_nye);
     let mut rng = Rng::new(a.seed, 6);
     // printing/parsing is cheap and every fold matters: the text driver takes every zone in both tiers
     let zs = zones(a, &mut rng, which == "c09z");
